@@ -635,6 +635,8 @@ func runC04(cx *Ctx, r *Report) {
 		r.check(ok, "time-window", "BeginBlock", pos, "each asset's window advances by exactly (block time − stored previous block time), independently of the other assets, under TimeLimited ∧ old+Δ < TimePeriod; otherwise it is reset together with the time-limited supply; the reference time then moves to this block", "time window of the time-based limit: "+why)
 	}
 	cx.lostUpdateRule(r, []string{"htlc"}, 8)
+	cx.scanPrefixClosedRule(r, []string{"htlc"}, "scan-prefix-closed")
+	cx.keyEncodingUniformRule(r, []string{"htlc"}, "key-encoding-uniform")
 	{
 		walks := map[string]*c13Walk{}
 		cx.closeDequeuesRule(r, func(e Entry) *c13Walk {
@@ -649,6 +651,8 @@ func runC04(cx *Ctx, r *Report) {
 	}
 	r.requireCount("time-window", 1)
 	r.requireCount("double-entry", 7)
+	// the limit that the counter checks read is the stored one (rule shared with C16)
+	cx.paramGettersVerbatim(r, []string{"htlc"}, "param-getter-verbatim")
 	r.requireCount("limit-guard", 9)
 	r.requireCount("supply-writers", 6)
 }
